@@ -66,12 +66,24 @@ func genPit(g *common.Gen, r *common.Rand) {
 	seq := 0
 	draw := func() enc.Name {
 		if len(names) > 0 && r.Chance(3, 5) {
-			return common.Pick(r, names)
+			n := common.Pick(r, names)
+			if r.Chance(1, 8) {
+				n = c07.Twin(r, n) // same value bytes, another component type
+				names = append(names, n)
+			}
+			return n
 		}
 		n := u.Draw(r)
+		if r.Chance(1, 5) {
+			n = c07.Twin(r, n)
+		}
 		names = append(names, n)
 		return n
 	}
+	if flags[0] == flags[1] && r.Chance(2, 3) {
+		flags[1][r.Intn(2)] ^= 1 // two different entries per name: Data matches both
+	}
+	lastFace := map[string]int{} // face of the latest Interest per name
 	if r.Chance(1, 20) {
 		// burst: > 100 dead-nonce records falling due in one tick of the reaper (retransmissions 50 µs apart
 		// put the previous nonce on the list; distinct expiries keep the reaping order deterministic)
@@ -127,6 +139,7 @@ func genPit(g *common.Gen, r *common.Rand) {
 				n = append(enc.Name{enc.NewStringComponent(enc.TypeGenericNameComponent, "localhost")}, n...)
 			}
 			g.Op("I %d %s %d %d %s %s %s %s", face, common.NameText(n), fl[0], fl[1], nonce, ls, hl, nhf)
+			lastFace[common.NameText(n)] = face
 			nInterest++
 			g.Stat("I")
 		case x < 70:
@@ -148,6 +161,9 @@ func genPit(g *common.Gen, r *common.Rand) {
 			}
 			seq++
 			dface := r.Range(1, 4)
+			if lf, ok := lastFace[common.NameText(n)]; ok && r.Chance(1, 3) {
+				dface = lf // Data arriving on the face the Interest came from (consumer and producer behind one face)
+			}
 			if r.Chance(1, 40) {
 				dface = 9
 			}
@@ -398,9 +414,6 @@ func b01(b bool) string {
 }
 
 func dumpPit() string {
-	if clash != "" {
-		return clash
-	}
 	d := table.VerifC08DumpPitCs(th.VerifC08PitCs())
 	// tokens are renamed by order of creation (at most one entry is created per operation)
 	var fresh []uint32
@@ -446,8 +459,8 @@ func dumpPit() string {
 		for nonce := range nonces {
 			k := n.Hash() + uint64(nonce)
 			v := txt + "#" + strconv.FormatUint(uint64(nonce), 10)
-			if prev, ok := dict[k]; ok && prev != v {
-				return "HASH-COLLISION " + prev + " " + v
+			if _, ok := dict[k]; ok {
+				continue // a key shared by two (name, nonce) pairs is rendered as the first; the dump then differs from the model
 			}
 			dict[k] = v
 		}
@@ -472,9 +485,6 @@ func dumpPit() string {
 func nhText(n int, hasStrategy bool) string { return strconv.Itoa(n) + "|" + b01(hasStrategy) }
 
 func dumpFib() string {
-	if clash != "" {
-		return clash
-	}
 	switch table.FibStrategyTable.(type) {
 	case *table.FibStrategyTree:
 		nodes, pfx := table.VerifC08FibTreeNodes()
